@@ -1,5 +1,129 @@
-From Coq Require Import ZArith NArith List Bool.
+(* C12 — Declarative modelling resolves promises independently of declaration order.
+   Property theorems only; each is closed by [exact] of a lemma proved in Proofs/DeclP.v.
+
+   [run d] is the scheduler of decl.apply (instruction deque, promises dict, deferred dict, re-queue on
+   fulfilment, terminal checks) on the atomic actions [d]; [compile] splits an instruction document into
+   those actions the way _operate_extend/_operate_set/_operate_sync/_create_complex_object(s) do, in the
+   order of [Gen.Decl_consts.OPERATIONS] (read from the source on every run).  Objects are named by the
+   unique name the document gives them, so "up to freshly generated UUIDs" is literal equality here. *)
+From Coq Require Import ZArith NArith List Bool Permutation.
 Import ListNotations.
-From V Require Import Model.Val Model.Decl.
-Example c12_placeholder : run [] = Done st0.
-Proof. reflexivity. Qed.
+From V Require Import Model.Val Model.Decl Proofs.DeclP.
+
+(* 0. the scheduler terminates within the fuel [run] gives it: every pop either executes an action for
+      good or parks it under a promise that is still missing, and a re-queue removes it from [deferred] *)
+Theorem scheduler_terminates : forall d s, run d <> OutOfFuel s.
+Proof. exact run_terminates. Qed.
+Print Assumptions scheduler_terminates.
+
+(* 1. without a duplicate declaration, what gets executed / resolved is the least fixed point of
+      "reached and all needs available" — a set that does not depend on the order of the document *)
+Theorem executed_is_lfp : forall d s, run d = Done s \/ run d = Unfulfilled s ->
+  (forall a, In a (sX s) <-> fired d a) /\ (forall p, memP p (sP s) = true <-> avail d p).
+Proof. exact executed_iff_fired. Qed.
+Print Assumptions executed_is_lfp.
+
+Theorem lfp_order_free : forall d d', Permutation d d' ->
+  (forall a, fired d a <-> fired d' a) /\ (forall p, avail d p <-> avail d' p).
+Proof. exact fired_perm_iff. Qed.
+Print Assumptions lfp_order_free.
+
+(* 2. order independence: if one order of the document is applied successfully then every order is, the
+      same actions are executed (each exactly once) and the returned promise map is the same *)
+Theorem order_independent : forall d d' s, Permutation d d' -> run d = Done s ->
+  exists s', run d' = Done s' /\ Permutation (sX s) (sX s') /\ Permutation (sP s) (sP s')
+             /\ forall p, lookupP (sP s) p = lookupP (sP s') p.
+Proof. exact done_perm. Qed.
+Print Assumptions order_independent.
+
+Theorem order_independent_documents : forall (d d' : list instr) s, Permutation d d' -> run (compile d) = Done s ->
+  exists s', run (compile d') = Done s' /\ Permutation (sX s) (sX s')
+             /\ forall p, lookupP (sP s) p = lookupP (sP s') p.
+Proof.
+  intros d d' s HP H. destruct (done_perm _ _ _ (Permutation_map c_instr HP) H) as (s' & A & B & _ & C).
+  exists s'. auto.
+Qed.
+Print Assumptions order_independent_documents.
+
+Theorem success_executes_everything_once : forall d s, run d = Done s ->
+  Permutation (sX s) (shells d) /\ Permutation (sP s) (all_fuls d) /\ NoDup (map fst (sP s)).
+Proof. exact run_done. Qed.
+Print Assumptions success_executes_everything_once.
+
+(* 3. every promise reference points at the object that declared it: the promise map of a successful run
+      is exactly the set of declarations of the document, and every promise any action mentions is in it *)
+Theorem promise_points_to_declarer : forall d s, run d = Done s ->
+  (forall p o, lookupP (sP s) p = Some o <-> In (p, o) (all_fuls d)) /\
+  (forall a n, In a (shells d) -> In n (a_needs a) -> exists o, lookupP (sP s) n = Some o /\ In (n, o) (all_fuls d)).
+Proof. intros d s H. split; [exact (promise_map_spec d s H)|exact (done_needs_declared d s H)]. Qed.
+Print Assumptions promise_points_to_declarer.
+
+(* 4. a reference to a promise nobody declares, or a promise id declared twice, is never a success —
+      in any order (by 0 the outcome is then DupErr = ValueError or Unfulfilled = UnfulfilledPromisesError) *)
+Theorem unfulfilled_errors : forall d a p, In a (shells d) -> In p (a_needs a) -> ~ In p (map fst (all_fuls d)) ->
+  forall s, run d <> Done s.
+Proof. exact undeclared_fails. Qed.
+Print Assumptions unfulfilled_errors.
+
+Theorem duplicate_errors : forall d, ~ NoDup (map fst (all_fuls d)) -> forall s, run d <> Done s.
+Proof. exact duplicate_fails. Qed.
+Print Assumptions duplicate_errors.
+
+Theorem duplicate_error_means_duplicate : forall d s, run d = DupErr s -> ~ NoDup (map fst (all_fuls d)).
+Proof. exact run_dup. Qed.
+Print Assumptions duplicate_error_means_duplicate.
+
+(* 5. the resulting store.  _partial: proved for documents in which no two actions write the same cell
+      ([cell_indep], decidable by [indep_check]); the order of the members of a list that several actions
+      append to is NOT covered — and the faithful model refutes it, see [store_order_refuted]. *)
+Theorem store_order_independent_partial : forall d d' s s', Permutation d d' ->
+  run d = Done s -> run d' = Done s' -> cell_indep (lookupP (sP s)) (shells d) ->
+  forall o a, read_list o a (final_log s) = read_list o a (final_log s')
+              /\ read_val o a (final_log s) = read_val o a (final_log s').
+Proof. exact store_perm. Qed.
+Print Assumptions store_order_independent_partial.
+
+Theorem indep_check_decides : forall pm l, indep_check pm l = true -> cell_indep pm l.
+Proof. exact indep_check_sound. Qed.
+Print Assumptions indep_check_decides.
+
+(* witness: i1 appends two classes [Ka (super: !promise 2); Kb] to one list, i0 declares promise 2 in
+   another list.  No two instructions extend the same list, yet the order inside the list differs:
+   the member that has to wait is appended after its sibling (known finding sibling-order:deferred-member). *)
+Definition PK : str := [1]%N.  Definition a_packages : str := [2]%N.  Definition a_classes : str := [3]%N.
+Definition nG : str := [4]%N.  Definition nKx : str := [5]%N.  Definition nKa : str := [6]%N.
+Definition nKb : str := [7]%N.  Definition a_super : str := [8]%N.
+Definition wit_i0 : instr :=
+  mkInstr (RObj PK) GNil
+    (GCons a_packages (ICons (IObj (Some 1%N) nG [] (GCons a_classes (ICons (IObj (Some 2%N) nKx [] GNil) INil) GNil)) INil) GNil)
+    [] [].
+Definition wit_i1 : instr :=
+  mkInstr (RObj PK) GNil
+    (GCons a_classes (ICons (IObj None nKa [(a_super, SRef (RProm 2%N))] GNil) (ICons (IObj None nKb [] GNil) INil)) GNil)
+    [] [].
+
+Theorem store_order_refuted :
+  exists (d d' : list instr) s s', Permutation d d' /\ no_shared_list d = true /\
+    run (compile d) = Done s /\ run (compile d') = Done s' /\
+    read_list PK a_classes (final_log s) <> read_list PK a_classes (final_log s').
+Proof.
+  exists [wit_i0; wit_i1], [wit_i1; wit_i0].
+  eexists. eexists. split; [apply perm_swap|]. split; [vm_compute; reflexivity|].
+  split; [vm_compute; reflexivity|]. split; [vm_compute; reflexivity|].
+  vm_compute. discriminate.
+Qed.
+Print Assumptions store_order_refuted.
+
+(* non-vacuity of the hypotheses: a document with a forward reference, applied successfully in both
+   orders, whose actions write pairwise different cells *)
+Definition ex_i1 : instr :=
+  mkInstr (RObj PK) GNil
+    (GCons a_classes (ICons (IObj None nKa [(a_super, SRef (RProm 2%N))] GNil) INil) GNil) [] [].
+Example ex_done : exists s, run (compile [ex_i1; wit_i0]) = Done s /\
+  indep_check (lookupP (sP s)) (shells (compile [ex_i1; wit_i0])) = true /\
+  read_val nKa a_super (final_log s) = Some (CObj nKx).
+Proof. eexists. split; [vm_compute; reflexivity|]. split; vm_compute; reflexivity. Qed.
+Example ex_unfulfilled : exists s, run (compile [ex_i1]) = Unfulfilled s.
+Proof. eexists. vm_compute. reflexivity. Qed.
+Example ex_duplicate : exists s, run (compile [wit_i0; wit_i0]) = DupErr s.
+Proof. eexists. vm_compute. reflexivity. Qed.
